@@ -52,12 +52,12 @@ def sdOf (v : String) : NumDesc → Option SD
     if f.isEmpty then some ⟨true, 0, some 0, fun _ => 0, none, false, false⟩
     else if !f.all inRange || f.head? = some 0 then none
     else some ⟨false, e, some f.length, fun p => (f.getD p 0).toNat, none, false, false⟩
-  | .gen l e _ first =>
+  | .gen l e _ first hashed =>
     -- NewNumber: the longest prefix of in-range values; zero if it is empty or starts with 0
     let firstOk := match first with | none => true | some f => decide (1 ≤ f ∧ f ≤ 9)
     if l = 0 || !firstOk then some ⟨true, 0, some 0, fun _ => 0, none, true, v == "v3"⟩
     else some ⟨false, e, if l < 0 then none else some l.toNat,
-      fun p => match first with | some f => if p = 0 then f.toNat else genDigit p | none => genDigit p, none, true, v == "v3"⟩
+      fun p => match first with | some f => if p = 0 then f.toNat else srcDigit hashed p | none => srcDigit hashed p, none, true, v == "v3"⟩
 
 structure SH where
   win : Win
@@ -124,6 +124,13 @@ def occIn (sd : SD) (w : Win) (pat : List Int) (prefixLen : Nat) : List Nat :=
   | (s, _) :: _ =>
     let T := cells.map fun (_, d) => (d : Int)
     if pat.isEmpty then cells.map (·.1) else (occurrencesArr pat.toArray T.toArray).map (fun (i : Nat) => i + s)
+
+/-- how much of an infinite generator-backed source the oracle looks at when judging a search:
+far enough to see every position the implementation reported (so that a deep answer is judged,
+not skipped), never less than 12000 cells -/
+def knownPrefix (res : String) (plen : Nat) : Nat :=
+  let top := ((res.splitOn ",").filterMap fun (t : String) => t.toNat?).foldl max 0
+  max 12000 (min 400000 (top + plen + 2))
 
 def boolStr (b : Bool) : String := if b then "true" else "false"
 
@@ -481,7 +488,7 @@ def specStmt (v : String) (sd : SD) (st : SSt) (s : Stmt) (res : String) : Strin
       else if res.startsWith "panic" then (fail op res "normal return", st)
       else
         let fin := winFinite sd sh.win
-        let occ := occIn sd sh.win pat (if fin then maxTake else (match sd.depth with | some k => k | none => 12000))
+        let occ := occIn sd sh.win pat (if fin then maxTake else (match sd.depth with | some k => k | none => knownPrefix res pat.length))
         let plen := pat.length
         let endOfMatch := fun (p : Nat) => (p + (if plen = 0 then 1 else plen) : Nat)
         -- for infinite windows only a prefix is known: answers are decidable iff enough matches lie inside it
@@ -586,7 +593,7 @@ def specStmt (v : String) (sd : SD) (st : SSt) (s : Stmt) (res : String) : Strin
       | some sh =>
         if n ≤ 0 then (if res == "-" then "ok" else fail "Matches (stored sequence)" res "-", st) else
         let fin := winFinite sd sh.win
-        let occ := occIn sd sh.win sf.pat (if fin then maxTake else (match sd.depth with | some k => k | none => 12000))
+        let occ := occIn sd sh.win sf.pat (if fin then maxTake else (match sd.depth with | some k => k | none => knownPrefix res sf.pat.length))
         let top : Int := match upper sd.len sh.win with | some u => u | none => 0
         let plen := sf.pat.length
         let endOfMatch := fun (p : Nat) => (p + (if plen = 0 then 1 else plen) : Nat)
@@ -617,7 +624,7 @@ def specStmt (v : String) (sd : SD) (st : SSt) (s : Stmt) (res : String) : Strin
       | none => ("FAIL bad handle", st)
       | some sh =>
         let fin := winFinite sd sh.win
-        let occ := occIn sd sh.win sf.pat (if fin then maxTake else (match sd.depth with | some k => k | none => 12000))
+        let occ := occIn sd sh.win sf.pat (if fin then maxTake else (match sd.depth with | some k => k | none => knownPrefix res sf.pat.length))
         if !fin ∧ (sf.back ∨ occ.length < sf.consumed + n.toNat) then ("ok", st) else
         let base := if sf.back then occ.reverse else occ
         let avail := (base.drop sf.consumed).take n.toNat
@@ -669,7 +676,7 @@ def specScriptLine (v desc stmts : String) (raw : String) : String :=
           | .zero => true
           | .finite _ _ => true
           | .test f r _ => r.isEmpty || (f.isEmpty && r.isEmpty)
-          | .gen l _ _ first => l == 0 || (match first with | some f => !(decide (1 ≤ f ∧ f ≤ 9)) | none => false)
+          | .gen l _ _ first _ => l == 0 || (match first with | some f => !(decide (1 ≤ f ∧ f ≤ 9)) | none => false)
           | .sqrt a _ | .cube a _ | .rat a _ => a == 0
         let st0 : SSt := { handles := #[⟨{}, if v == "v3" then baseBounded else false⟩], iters := #[], seqs := #[], reach := if sd.eagerFirst && !sd.isZero then 0 else -1 }
         let rec go : List Stmt → List String → SSt → Nat → String
